@@ -65,6 +65,8 @@ class Session:
 
         self.can_decrypt = False
         self.client_hello_seen = False
+        # not known before a ServerHello has been seen (alerts may arrive earlier)
+        self.tls_version = TlsVersion.UNDEFINED
 
         self.server_cipher_change = False
         self.client_cipher_change = False
